@@ -1,10 +1,16 @@
 #!/bin/sh
 # usage: seedtest.sh <prop> <patch.diff> [tier]  — apply a seeded change to /repo, run the check, undo.
+# The property's evidence file and the regenerated Lean modules are restored afterwards: committed evidence
+# must come from runs on the unchanged tree only.
 P=$1; D=$2; T=${3:-quick}
 cd /verif
+[ -f evidence/$P.json ] && cp evidence/$P.json /tmp/seedtest_evidence_$P.json
 git -C /repo apply "$D" || { echo "patch does not apply"; exit 2; }
 python3 run.py $P $T; rc=$?
 git -C /repo checkout -- .
 echo "seedtest $P $(basename $(dirname $D)): exit=$rc"
 [ -f evidence/replay/$P-1.json ] && head -c 900 evidence/replay/$P-1.json
+[ -f /tmp/seedtest_evidence_$P.json ] && mv /tmp/seedtest_evidence_$P.json evidence/$P.json
+rm -f evidence/replay/$P-*.json
+git checkout -q -- lean/Snowflake/Generated 2>/dev/null
 exit 0
